@@ -144,6 +144,8 @@ def run_shard(ctx):
             ctx.inconclusive_case("probe under hash seed %d timed out" % hs)
     for hs, o in outs:
         ctx.mon("rglob-shuffles", o.get("rglob_calls", 0))
+        for form, k in (o.get("forms") or {}).items():
+            ctx.cls("argument-form-" + form, k)
     # ---- judge ----
     for t in trees:
         m = meta[t["id"]]
